@@ -5,6 +5,9 @@ package world
 
 import (
 	"bytes"
+	mrand "math/rand"
+	"testing/cryptotest"
+	stdlog "log"
 	"fmt"
 	"io"
 	"os"
@@ -45,6 +48,8 @@ type World struct {
 	free      bool
 	Deadlock  string
 	listeners map[string]*Listener
+	// Debug, when set, receives verbose diagnostics (VERIF_DEBUG_STEPS).
+	Debug io.Writer
 }
 
 type lockedBuf struct {
@@ -66,6 +71,8 @@ func (l *lockedBuf) String() string {
 	defer l.mu.Unlock()
 	return l.b.String()
 }
+
+var fixturesOnce sync.Once
 
 // SpinLimit is the number of iterations of one condition-less loop that may
 // happen at one virtual instant before the loop is classified as spinning.
@@ -91,7 +98,24 @@ func Run(r *core.Run, opt Options, body func(w *World)) (w *World) {
 	oldLogger := log.Logger
 	log.Logger = zerolog.New(&w.LogBuf)
 	defer func() { log.Logger = oldLogger }()
+	stdlog.SetOutput(&w.LogBuf) // a few relic packages use the standard logger
+	defer stdlog.SetOutput(os.Stderr)
 	defer simhook.Set(nil)
+	// every random source the run can depend on is derived from the seed:
+	// crypto/rand (ECDSA nonces, PKCS#7 serials, timestamp nonces end up in
+	// cache keys and thus in control flow) and the global math/rand source
+	// (sibling shuffle in the directory view)
+	fixturesOnce.Do(func() {
+		// fixture keys are generated from a fixed stream, so that every
+		// process holds byte-identical keys and no run's own stream is
+		// consumed by lazy fixture generation
+		cryptotest.SetGlobalRandom(core.T, 424242)
+		for _, id := range []string{"sign-rsa-a", "sign-rsa-b"} {
+			PGPEntity(PKI()[id])
+		}
+	})
+	cryptotest.SetGlobalRandom(core.T, r.Seed*1000003+uint64(r.No)+1)
+	mrand.Seed(int64(r.Seed*7919 + uint64(r.No)))
 	func() {
 		defer func() {
 			if p := recover(); p != nil {
@@ -120,6 +144,7 @@ func Run(r *core.Run, opt Options, body func(w *World)) (w *World) {
 			}
 			if dbg := os.Getenv("VERIF_DEBUG_STEPS"); dbg != "" {
 				f, _ := os.OpenFile(dbg, os.O_CREATE|os.O_APPEND|os.O_WRONLY, 0o644)
+				w.Debug = f
 				fmt.Fprintf(f, "=== run %d\n", r.No)
 				w.Sched.OnStep = func(t *core.Task, n int) {
 					fmt.Fprintf(f, "step %d t=%v tape=%d release %s@%s of %d parked %v\n", w.Sched.Steps, w.Since(), len(r.T.Rec), t.Name, t.Tag, n, w.Sched.Parked())
@@ -257,4 +282,11 @@ func Recv[T any](w *World, ch <-chan T) T {
 	v := <-ch
 	w.Yield("wake")
 	return v
+}
+
+// Debugf writes a diagnostic line when step debugging is on.
+func (w *World) Debugf(format string, a ...any) {
+	if w.Debug != nil {
+		fmt.Fprintf(w.Debug, "  dbg t=%v "+format+"\n", append([]any{w.Since()}, a...)...)
+	}
 }
